@@ -36,10 +36,18 @@ Record obj := {
   o_rawbase : option path;              (* rawbases[0][0] split at '.' *)
   o_initbase : option path;             (* _initialbases[0] *)
   o_baseobj : option path;              (* baseobjects[0], by identity; None = unresolved or no base *)
-  o_state : pstate                      (* modules only *)
+  o_state : pstate;                     (* ProcessingState of a module.  GHOST for a class: Processing while its body is
+                                           being visited, Processed afterwards (no counterpart in pydoctor) *)
+  o_mod : path                          (* GHOST: identity of the module whose source text contains the definition *)
 }.
 
-Record state := { objs : list obj; oof : bool; anomaly : bool }.
+(* `leak` is GHOST (no counterpart in pydoctor, never read by the model's control flow): it records that some
+   expansion performed DURING the run (right-hand side of an alias assignment, base-class expression, star import)
+   was outside the guard under which expandName is proved sound -- i.e. that the run took one of the fallbacks of
+   the _refuted theorems, or star-imported from a module that was not PROCESSED -- or that _handleReExport moved an
+   object (after which names imported from the defining module go stale: C04_direct_import_resolves_refuted).  Theorems about whole runs carry
+   the hypothesis leak = false; the correspondence check reports how many generated projects satisfy it. *)
+Record state := { objs : list obj; oof : bool; anomaly : bool; leak : bool }.
 
 Definition is_modkind (k : kind) : bool := match k with KMod | KPkg => true | _ => false end.
 
@@ -53,26 +61,28 @@ Definition by_id (st : state) (i : path) : option obj :=
 
 Definition upd_obj (st : state) (i : path) (f : obj -> obj) : state :=
   {| objs := map (fun o => if path_eqb (o_id o) i then f o else o) (objs st);
-     oof := oof st; anomaly := anomaly st |}.
+     oof := oof st; anomaly := anomaly st; leak := leak st |}.
 
 Definition add_obj (st : state) (o : obj) : state :=
-  {| objs := objs st ++ [o]; oof := oof st; anomaly := anomaly st |}.
+  {| objs := objs st ++ [o]; oof := oof st; anomaly := anomaly st; leak := leak st |}.
 
-Definition flag_anomaly (st : state) : state := {| objs := objs st; oof := oof st; anomaly := true |}.
-Definition flag_oof (st : state) : state := {| objs := objs st; oof := true; anomaly := anomaly st |}.
+Definition flag_anomaly (st : state) : state := {| objs := objs st; oof := oof st; anomaly := true; leak := leak st |}.
+Definition flag_oof (st : state) : state := {| objs := objs st; oof := true; anomaly := anomaly st; leak := leak st |}.
+Definition flag_leak (b : bool) (st : state) : state :=
+  {| objs := objs st; oof := oof st; anomaly := anomaly st; leak := leak st || b |}.
 
 Definition set_amap (n : name) (q : path) (o : obj) : obj :=
   {| o_path := o_path o; o_id := o_id o; o_kind := o_kind o; o_amap := set_assoc n q (o_amap o);
-     o_rawbase := o_rawbase o; o_initbase := o_initbase o; o_baseobj := o_baseobj o; o_state := o_state o |}.
+     o_rawbase := o_rawbase o; o_initbase := o_initbase o; o_baseobj := o_baseobj o; o_state := o_state o; o_mod := o_mod o |}.
 Definition set_state (s : pstate) (o : obj) : obj :=
   {| o_path := o_path o; o_id := o_id o; o_kind := o_kind o; o_amap := o_amap o;
-     o_rawbase := o_rawbase o; o_initbase := o_initbase o; o_baseobj := o_baseobj o; o_state := s |}.
+     o_rawbase := o_rawbase o; o_initbase := o_initbase o; o_baseobj := o_baseobj o; o_state := s; o_mod := o_mod o |}.
 Definition set_path (p : path) (o : obj) : obj :=
   {| o_path := p; o_id := o_id o; o_kind := o_kind o; o_amap := o_amap o;
-     o_rawbase := o_rawbase o; o_initbase := o_initbase o; o_baseobj := o_baseobj o; o_state := o_state o |}.
+     o_rawbase := o_rawbase o; o_initbase := o_initbase o; o_baseobj := o_baseobj o; o_state := o_state o; o_mod := o_mod o |}.
 Definition set_baseobj (b : option path) (o : obj) : obj :=
   {| o_path := o_path o; o_id := o_id o; o_kind := o_kind o; o_amap := o_amap o;
-     o_rawbase := o_rawbase o; o_initbase := o_initbase o; o_baseobj := b; o_state := o_state o |}.
+     o_rawbase := o_rawbase o; o_initbase := o_initbase o; o_baseobj := b; o_state := o_state o; o_mod := o_mod o |}.
 
 (* `name in self.contents` / self.contents.get(name) *)
 Definition child (st : state) (o : obj) (n : name) : option obj := obj_for st (o_path o ++ [n]).
@@ -162,6 +172,31 @@ Definition resolve_name (st : state) (ctx : obj) (dotted : path) : option obj :=
 
 (* ---------------------------------------------------------------- the guard of the soundness theorem *)
 Definition is_some {A} (o : option A) : bool := match o with Some _ => true | None => false end.
+Definition is_processed (s : pstate) : bool := match s with Processed => true | _ => false end.
+
+(* the object knows the name itself: `name in self.contents` or `name in self._localNameToFullName_map` *)
+Definition own (st : state) (o : obj) (n : name) : bool :=
+  is_some (child st o n) || is_some (assoc n (o_amap o)).
+
+(* Class.find walks only through classes whose body has been visited completely and whose alias map does not know the
+   name (Class.find looks at `contents` only: an alias `n = other` in an intermediate base class is skipped by
+   pydoctor but wins in Python -- C04_find_skips_alias_refuted) *)
+Fixpoint find_closed (fuel : nat) (st : state) (c : obj) (n : name) : bool :=
+  match child st c n with
+  | Some _ => true
+  | None =>
+    is_processed (o_state c) && negb (is_some (assoc n (o_amap c))) &&
+    match fuel with
+    | O => true
+    | S f => match o_baseobj c with
+             | Some b => match by_id st b with
+                         | Some bo => find_closed f st bo n
+                         | None => true
+                         end
+             | None => true
+             end
+    end
+  end.
 
 (* the part of expandName's walk that C04 vouches for: the first part is bound in the context itself, and no
    later part is found by falling back from a class to its enclosing scope (see the _refuted theorems) *)
@@ -170,12 +205,12 @@ Fixpoint trail_ok (st : state) (o : obj) (first : bool) (parts : list name) : bo
   | [] => true
   | p :: rest =>
     let fn := l2f st o p in
-    let own := is_some (child st o p) || is_some (assoc p (o_amap o)) in
     let fm := find_for st o p in
     let here :=
-      if first then own
+      if first then own st o p
       else match o_kind o with
-           | KClass => if own then negb (path_eqb fn [p]) || negb (is_some fm) else path_eqb fn [p]
+           | KClass => if own st o p then negb (path_eqb fn [p]) || negb (is_some fm)
+                       else path_eqb fn [p] && (negb (is_some fm) || find_closed (length (objs st)) st o p)
            | _ => true
            end in
     let notfound := path_eqb fn [p] && negb first in
@@ -191,6 +226,19 @@ Fixpoint trail_ok (st : state) (o : obj) (first : bool) (parts : list name) : bo
           end)
   end.
 
+(* the namespace object in which the class -> parent -> ... chain of _localNameToFullName finds the name *)
+Fixpoint landing (fuel : nat) (st : state) (o : obj) (n : name) : option obj :=
+  if own st o n then Some o
+  else match o_kind o with
+       | KClass => match fuel with
+                   | O => None
+                   | S f => match parent_of st o with
+                            | Some par => landing f st par n
+                            | None => None
+                            end
+                   end
+       | _ => None
+       end.
 
 (* ---------------------------------------------------------------- relative imports *)
 (* visit_ImportFrom: `parent = ctx.parentMod; if package: level -= 1; for _ in range(level): parent = parent.parent` *)
@@ -232,7 +280,7 @@ Definition reparent (st : state) (ob : obj) (newpar : obj) (newname : name) : st
                                | Some rest => set_path (newp ++ rest) o
                                | None => o
                                end) (objs st) in
-    let st1 := {| objs := moved; oof := oof st; anomaly := anomaly st || clash |} in
+    let st1 := {| objs := moved; oof := oof st; anomaly := anomaly st || clash; leak := leak st |} in
     upd_obj st1 (o_id oldpar) (set_amap oldname newp)
   end.
 
@@ -246,6 +294,28 @@ Section Exec.
   Variable P : project.
   (* System.getProcessedModule: processes the module if need be; returns the Module object (by identity) *)
   Variable gpm : state -> path -> state * option path.
+
+  (* GHOST guards (see `leak`).  The body of the scope of [ctx] in the source text does not bind n: *)
+  Definition py_unbound (ctx : obj) (n : name) : bool :=
+    match strip_prefix (o_mod ctx) (o_id ctx) with
+    | Some qual => match scope_body P (o_mod ctx) qual with
+                   | Some body => negb (is_some (binder_of body n))
+                   | None => false
+                   end
+    | None => false
+    end.
+
+  (* expandName(parts) in ctx stays inside the guard: the first part is known to ctx itself, or ctx is a class whose body
+     does not bind it, no ENCLOSING CLASS knows it, and the module does; the rest of the walk is trail_ok *)
+  Definition expand_ok (st : state) (ctx : obj) (parts : list name) : bool :=
+    match parts with
+    | [] => false
+    | p :: _ =>
+      match landing (length (o_path ctx)) st ctx p with
+      | None => false
+      | Some land => (own st ctx p || (is_modkind (o_kind land) && py_unbound ctx p)) && trail_ok st land true parts
+      end
+    end.
 
   (* _getCurrentModuleExports *)
   Definition exports_of (st : state) (cid : path) : list name :=
@@ -281,7 +351,7 @@ Section Exec.
           then (st, false)                                       (* `if ob.parent is None`: a root module is not moved *)
           else if in_all then (st, false)
           else match by_id st cid with
-               | Some cur => (reparent st ob cur asn, true)
+               | Some cur => (reparent (flag_leak true st) ob cur asn, true)   (* ghost: a re-export move fired *)
                | None => (st, false)
                end
         end
@@ -347,7 +417,7 @@ Section Exec.
       | None => st1
       | Some mo =>
         let names := match all_of modid with Some l => l | None => star_names st1 mo end in
-        import_all_loop st1 cid (exports_of st1 cid) modid names
+        import_all_loop (flag_leak (negb (is_processed (o_state mo))) st1) cid (exports_of st1 cid) modid names
       end
     end.
 
@@ -364,9 +434,9 @@ Section Exec.
   (* identity of a new definition = identity of its lexical parent ++ [name] (CPython's __module__.__qualname__);
      its full name = CURRENT full name of the parent ++ [name] (they differ when the parent has been moved by a
      re-export while its body was still being visited) *)
-  Definition new_obj (p i : path) (k : kind) : obj :=
+  Definition new_obj (p i : path) (k : kind) (mid : path) : obj :=
     {| o_path := p; o_id := i; o_kind := k; o_amap := []; o_rawbase := None; o_initbase := None;
-       o_baseobj := None; o_state := Unprocessed |}.
+       o_baseobj := None; o_state := Processed; o_mod := mid |}.
 
   (* addObject: a second object under the same full name is outside the model (handleDuplicate) *)
   Definition register (st : state) (o : obj) : state :=
@@ -406,14 +476,19 @@ Section Exec.
         let p := o_path par ++ [n] in
         let i := o_id par ++ [n] in
         let c := {| o_path := p; o_id := i; o_kind := KClass; o_amap := []; o_rawbase := base;
-                    o_initbase := expandbase; o_baseobj := baseobj; o_state := Processed |} in
-        let st1 := register st c in
-        fold_left (exec_stmt mid i) body st1
+                    o_initbase := expandbase; o_baseobj := baseobj; o_state := Processing; o_mod := mid |} in
+        let bad := match base with
+                   | Some b => is_some baseobj && negb (expand_ok st par b)
+                   | None => false
+                   end in
+        let st1 := register (flag_leak bad st) c in
+        let st2 := fold_left (exec_stmt mid i) body st1 in
+        upd_obj st2 i (set_state Processed)                     (* ghost: the class body has been visited *)
       end
     | SDef n =>
       match by_id st cid with
       | None => st
-      | Some par => register st (new_obj (o_path par ++ [n]) (o_id par ++ [n]) KFun)
+      | Some par => register st (new_obj (o_path par ++ [n]) (o_id par ++ [n]) KFun mid)
       end
     | SAlias target expr =>
       match by_id st cid with
@@ -421,7 +496,7 @@ Section Exec.
       | Some ctx =>
         match child st ctx target with
         | Some _ => st                                           (* `if target in ctx.contents: return False` *)
-        | None => upd_obj st cid (set_amap target (expand_name st ctx expr))
+        | None => upd_obj (flag_leak (negb (expand_ok st ctx expr)) st) cid (set_amap target (expand_name st ctx expr))
         end
       end
     end.
@@ -464,32 +539,49 @@ Definition process_all (P : project) (order : list path) (st : state) : state :=
                end) order st.
 
 (* defaultPostProcess -> compute_mro.init_finalbaseobjects: an unresolved base is resolved again *)
-Definition finalize_bases (st : state) : state :=
-  {| objs := map (fun o =>
-                    match o_kind o, o_rawbase o, o_baseobj o with
-                    | KClass, Some raw, None =>
-                      match parent_of st o with
-                      | Some par =>
-                        match resolve_name st par raw with
-                        | Some bo => if kind_eqb (o_kind bo) KClass then set_baseobj (Some (o_id bo)) o else o
-                        | None => o
-                        end
-                      | None => o
-                      end
-                    | _, _, _ => o
-                    end) (objs st);
-     oof := oof st; anomaly := anomaly st |}.
+Definition final_base (st : state) (o : obj) : obj :=
+  match o_kind o, o_rawbase o, o_baseobj o with
+  | KClass, Some raw, None =>
+    match parent_of st o with
+    | Some par =>
+      match resolve_name st par raw with
+      | Some bo => if kind_eqb (o_kind bo) KClass then set_baseobj (Some (o_id bo)) o else o
+      | None => o
+      end
+    | None => o
+    end
+  | _, _, _ => o
+  end.
+
+(* ghost: the re-resolution of this class's base was outside the guard *)
+Definition final_base_bad (P : project) (st : state) (o : obj) : bool :=
+  match o_kind o, o_rawbase o, o_baseobj o with
+  | KClass, Some raw, None =>
+    match parent_of st o with
+    | Some par => is_some (o_baseobj (final_base st o)) && negb (expand_ok P st par raw)
+    | None => false
+    end
+  | _, _, _ => false
+  end.
+
+Definition finalize_bases (P : project) (st : state) : state :=
+  {| objs := map (final_base st) (objs st);
+     oof := oof st; anomaly := anomaly st;
+     leak := leak st || existsb (final_base_bad P st) (objs st) |}.
 
 (* System.addPackage / addModuleFromPath: every module is registered before anything is processed *)
 Definition init_state (P : project) : state :=
   {| objs := map (fun m => {| o_path := m_path m; o_id := m_path m;
                               o_kind := if m_pkg m then KPkg else KMod; o_amap := [];
                               o_rawbase := None; o_initbase := None; o_baseobj := None;
-                              o_state := Unprocessed |}) P;
-     oof := false; anomaly := false |}.
+                              o_state := Unprocessed; o_mod := m_path m |}) P;
+     oof := false; anomaly := false; leak := false |}.
 
 Definition final_state (P : project) (order : list path) : state :=
-  finalize_bases (process_all P order (init_state P)).
+  finalize_bases P (process_all P order (init_state P)).
+
+(* every module has been processed and every class body visited (no fuel exhaustion, every module in the order) *)
+Definition all_closed (st : state) : bool := forallb (fun o => is_processed (o_state o)) (objs st).
 
 (* ctx.resolveName(dotted) in the final state, ctx given by its current full name *)
 Definition resolve_in (st : state) (ctx dotted : path) : option obj :=
